@@ -168,7 +168,8 @@ class ReqCtx:
     """Per-request context handed to resolvers through ``context=``."""
 
     __slots__ = ("world", "faults", "kernel", "mode", "loop", "mutseq",
-                 "req_id", "stats", "pausable", "shared_error", "serial")
+                 "req_id", "stats", "pausable", "shared_error", "serial",
+                 "rendezvous", "arrived", "rv_event")
 
     def __init__(self, world, kernel, mode, loop=None, req_id=0):
         self.world = world
@@ -182,6 +183,12 @@ class ReqCtx:
         self.pausable = bool(loop is not None and loop.threaded_jobs)
         self.shared_error = None
         self.serial = False
+        # two sibling coroutine resolvers that wait for each other to have
+        # STARTED (a two-key batch that is dispatched when full): {path:
+        # partner path}, filled in by the engine for asyncio runs
+        self.rendezvous = {}
+        self.arrived = set()
+        self.rv_event = None
 
     def log(self, kind, path=None, payload=None):
         self.kernel.log.add(kind, path, payload)
@@ -406,6 +413,19 @@ def make_resolvers(spec, tname, fname):
     if beh == "async":
         async def coro(root, ctx, info, **kwargs):
             tok = _start(tname, fname, root, ctx, info)
+            partner = ctx.rendezvous.get(tuple(tok[0]))
+            if partner is not None:
+                # both siblings are in flight once the runtime has gathered
+                # them: neither may be made to wait for the other to FINISH
+                ctx.arrived.add(tuple(tok[0]))
+                if ctx.rv_event is None:
+                    ctx.rv_event = asyncio.Event()
+                if partner in ctx.arrived:
+                    ctx.count("rendezvous_completed")
+                    ctx.rv_event.set()
+                else:
+                    ctx.count("rendezvous_waited")
+                    await ctx.rv_event.wait()
             n = 1 + ctx.kernel.stream.below(2, "susp")
             for _ in range(n):
                 await ctx.loop.sleep(ctx.kernel.draw_latency("coro-lat"))
@@ -790,6 +810,9 @@ def run_config(config, bundle, request, world, stream, policy=None,
             loop.threaded_jobs = stream.below(3, "threaded-jobs") == 2
     ctx = ReqCtx(world, kernel, mode, loop=loop)
     ctx.serial = request.get("kind") == "mutation"
+    if mode == "asyncio" and request.get("rendezvous"):
+        a_, b_ = request["rendezvous"]
+        ctx.rendezvous = {a_: b_, b_: a_}
     out.ctx = ctx
     kw["context"] = ctx
     if middlewares_factory is not None:
